@@ -12,6 +12,9 @@ def st(flavour, engine, cases, ops=60, shards=8, timeout=900, **extra):
     ignore = extra.pop("miri_ignore_leaks", False)
     if ignore:
         d["miri_ignore_leaks"] = True
+    for k in ("miri_flags", "asan_leaks"):
+        if k in extra:
+            d[k] = extra.pop(k)
     if extra:
         d["extra"] = extra
     return d
@@ -25,7 +28,7 @@ def world(qcases=4000, tcases=240000, miri=True, asan=True):
         st("rel", "world", 4000, 400, 16, 3000, long=1, max_live=24),
     ]
     if miri:
-        thorough.append(st("miri", "world", 64, 36, 16, 3000))
+        thorough.append(st("miri", "world", 48, 30, 16, 3000, lite=8))
     if asan:
         thorough.append(st("asan", "world", 20000, 80, 16, 3000))
     return {"quick": quick, "thorough": thorough}
@@ -37,7 +40,10 @@ def script(engine, path, args, timeout=3000):
 
 def storage(prop, qcases=24000, tcases=800000, miri_q=False):
     quick = [st("dbg", "storage", qcases, 70, 8), st("rel", "storage", qcases, 70, 8)]
+    if miri_q:
+        quick.append(st("miri", "storage", 17, 18, 17, 900, small=1, lite=6))
     thorough = [
+        st("miri", "storage", 17 * 4, 24, 17, 3000, small=1, lite=6),
         st("dbg", "storage", tcases, 80, 16, 3000),
         st("rel", "storage", tcases, 80, 16, 3000),
         st("rel", "storage", 3000, 60, 16, 3000, far=1),
@@ -46,13 +52,13 @@ def storage(prop, qcases=24000, tcases=800000, miri_q=False):
     return quick, thorough
 
 
-def with_storage(prop, base):
-    q, t = storage(prop)
+def with_storage(prop, base, miri_q=False):
+    q, t = storage(prop, miri_q=miri_q)
     return {"quick": base["quick"] + q, "thorough": base["thorough"] + t}
 
 
-def only_storage(prop):
-    q, t = storage(prop)
+def only_storage(prop, miri_q=False):
+    q, t = storage(prop, miri_q=miri_q)
     return {"quick": q, "thorough": t}
 
 
@@ -60,26 +66,28 @@ PLANS = {
     "C01": world(),
     "C02": world(),
     "C03": with_storage("C03", world()),
-    "C04": only_storage("C04"),
+    "C04": only_storage("C04", miri_q=True),
     "C05": world(),
     "C06": {
         "quick": [st("dbg", "join", 1600, 12, 16), st("rel", "join", 1600, 12, 16)],
         "thorough": [st("dbg", "join", 60000, 14, 16, 3000), st("rel", "join", 120000, 14, 16, 3000),
-                     st("rel", "join", 600, 10, 16, 3000, far=1), st("asan", "join", 6000, 12, 16, 3000)],
+                     st("rel", "join", 600, 10, 16, 3000, far=1), st("asan", "join", 6000, 12, 16, 3000),
+                     st("miri", "join", 16, 4, 16, 3000, small=1)],
     },
     "C07": {
         "quick": [st("dbg", "parjoin", 800, 8, 8), st("rel", "parjoin", 800, 8, 8)],
         "thorough": [st("dbg", "parjoin", 20000, 8, 8, 3000), st("rel", "parjoin", 40000, 8, 8, 3000),
-                     st("tsan", "parjoin", 1600, 6, 8, 3000, max_pool=16)],
+                     st("tsan", "parjoin", 1600, 6, 8, 3000, max_pool=16),
+                     st("miri", "parjoin", 16, 3, 16, 3000, small=1, max_pool=3, miri_ignore_leaks=True)],
     },
-    "C08": with_storage("C08", world()),
+    "C08": with_storage("C08", world(), miri_q=True),
     "C09": world(),
     "C10": {
         "quick": [st("dbg", "conc", 24000, 6, 8, mode="controlled"), st("rel", "conc", 1600, 300, 8, mode="stress")],
         "thorough": [st("dbg", "conc", 800000, 6, 16, 3000, mode="controlled"), st("rel", "conc", 800000, 6, 16, 3000, mode="controlled"),
                      st("rel", "conc", 60000, 400, 8, 3000, mode="stress", max_threads=16),
                      st("tsan", "conc", 2400, 200, 8, 3000, mode="stress"),
-                     st("miri", "conc", 32, 5, 16, 3000, mode="stress", max_threads=4)],
+                     st("miri", "conc", 32, 5, 16, 3000, mode="stress", max_threads=4, miri_flags="-Zmiri-many-seeds=0..4")],
     },
     "C11": {
         "quick": [st("dbg", "dispatch", 4000, 24, 8), st("rel", "dispatch", 4000, 24, 8)],
@@ -99,13 +107,15 @@ PLANS = {
     "C16": {
         "quick": [st("dbg", "changeset", 16000, 14, 8), st("rel", "changeset", 16000, 14, 8)],
         "thorough": [st("dbg", "changeset", 400000, 16, 16, 3000), st("rel", "changeset", 400000, 16, 16, 3000),
-                     st("asan", "changeset", 40000, 14, 16, 3000)],
+                     st("asan", "changeset", 40000, 14, 16, 3000), st("miri", "changeset", 48, 8, 16, 3000)],
     },
     "C17": world(miri=False, asan=False),
     "C19": {
-        "quick": [st("dbg", "panicdrop", 2992, 12, 8), st("rel", "panicdrop", 2992, 12, 8)],
+        "quick": [st("dbg", "panicdrop", 2992, 12, 8), st("rel", "panicdrop", 2992, 12, 8),
+                  st("miri", "panicdrop", 34, 3, 17, 900)],
         "thorough": [st("dbg", "panicdrop", 1496 * 40, 12, 16, 3000), st("rel", "panicdrop", 1496 * 40, 12, 16, 3000),
-                     st("rel", "panicdrop", 1496 * 8, 12, 16, 3000, big=1), st("asan", "panicdrop", 1496 * 8, 12, 16, 3000)],
+                     st("rel", "panicdrop", 1496 * 8, 12, 16, 3000, big=1), st("asan", "panicdrop", 1496 * 8, 12, 16, 3000, asan_leaks=0),
+                     st("miri", "panicdrop", 187 * 2, 4, 17, 3000)],
     },
     "C20": {
         "quick": [st("dbg", "det", 2400, 60, 4, compare="x"), st("dbg", "det", 2400, 60, 4, compare="x"),
